@@ -181,6 +181,20 @@ CHECKS['C17'] = dict(
          '(exit 2), never a pass. The negative clauses (adapter itself / wrong scalar not valid; altered R, T, message, key) are outside the '
          'claim. Finding F8 was repaired in /repo (fix: commit d6af232).',
     technique=TECH)
+CHECKS['C18'] = dict(
+    text='AMHL.setup / setup_for / check_setup / verify_lock_key / release / scalar_sum run from the real source over the generic-group model for a '
+         'symbolic 32-byte seed (every sample is an uninterpreted-hash scalar) and chains of 2..4 parties (thorough 6): hop i tweak point = '
+         '(y_0+...+y_i)*G, every view validates, the final key opens the last lock, release applied right to left yields at each hop the scalar '
+         'whose point is that hop\'s lock and finally y_0; under the genericity assumption a key of another hop opens no other lock. setup_amhl / '
+         'make_adapter_witness / decrypt_adapter / release_left_amhl_lock for a 2-party chain: lock points are the partial-sum points, the adapter '
+         'witness satisfies the hop\'s adapter lock, the final key\'s point is the last hop\'s tweak point, and release_left_amhl_lock reads sa and s '
+         'at the byte offsets where the instructions put them (its arithmetic is scalar_sub followed by AMHL.release, covered by the cascade).',
+    design_ref='DESIGN.md section 4 C18',
+    note='Trusted: SX engine, z3, generic-group idealisation, canonical merging of congruent values mod L inside the model (sx/algebra.py modL). '
+         'The clause "the decrypted adapter is a signature satisfying the hop\'s lock" is composed from C17 (decrypting with a scalar whose point is '
+         'the tweak point gives a valid signature) and the identity proved here (the released scalar\'s point is the tweak point). Unknown solver '
+         'answers fall back to candidate replay on real libsodium, never to a pass.',
+    technique=TECH)
 NOT_APPLICABLE = {}
 NOTES = ('Exit codes of every check: 0 held on everything explored; 1 + VIOLATION line for a counterexample that was '
          'replayed on the real package and is not a listed known finding; 2 harness error / unsupported construct / '
